@@ -601,7 +601,7 @@ structure BJ (reg : Registry) (q : Entry → Bool) (s : PState) : Prop where
   trees : Tree.InvB s
   ainv : Tree.AInv (Tree.TreeInv q) (Tree.TInv q) s
 
-theorem forestAll_U {q : Entry → Bool} {f : Forest} (h : Tree.ForestAll (Tree.TreeInv q) f) :
+theorem forestAll_U {q : Entry → Bool} {f : Forest} (h : Goyang.Spec.Tree.ForestAll (Tree.TreeInv q) f) :
     ∀ id root, f.tree? id = some root → U root :=
   fun id root hr => (Tree.forestAll_tree? f id root h hr).1.1
 
@@ -619,13 +619,13 @@ theorem augFail_bd {reg : Registry} (id : Nat) (addErrors : Bool) (a : Entry) (s
 include hq in
 theorem augStep_bd (reg : Registry) (id : Nat) (addErrors : Bool) (nsOf : String) (hns : nsOf = ownerNs reg id)
     (acc : PState × List Entry × Nat × Nat) (a : Entry) (hb : BD reg acc.1.forest)
-    (hf : Tree.ForestAll (Tree.TreeInv q) acc.1.forest)
+    (hf : Goyang.Spec.Tree.ForestAll (Tree.TreeInv q) acc.1.forest)
     (ha : noStampL a.dir = true) (hUa : U a) : BD reg (Tree.augStep reg id addErrors nsOf acc a).1.forest := by
   classical
   obtain ⟨s, un, p, k⟩ := acc
   dsimp only at hb hf
   have hfind : BD reg (find reg s.forest (id, []) a.d.nodeMod a.d.name).2 ∧
-      Tree.ForestAll (Tree.TreeInv q) (find reg s.forest (id, []) a.d.nodeMod a.d.name).2 ∧
+      Goyang.Spec.Tree.ForestAll (Tree.TreeInv q) (find reg s.forest (id, []) a.d.nodeMod a.d.name).2 ∧
       ∀ t path, (find reg s.forest (id, []) a.d.nodeMod a.d.name).1 = some (t, path) → PathOK path := by
     have h2 := (Tree.augClosed_treeInv hq).find reg s.forest (id, []) a.d.nodeMod a.d.name hf Tree.pathOK_nil
     exact ⟨find_bd reg s.forest (id, []) a.d.nodeMod a.d.name (forestAll_U hf) Tree.pathOK_nil hb, h2.1, h2.2⟩
@@ -677,10 +677,9 @@ theorem augmentTree_bj (reg : Registry) (id : Nat) (addErrors : Bool) (s : PStat
   refine ⟨?_, ?_, Tree.invB_augmentTree reg id addErrors s h.trees, Tree.augmentTree_ainv hA reg id addErrors s h.ainv⟩
   · rw [Tree.augmentTree_eq]
     dsimp only
-    have key := Tree.foldl_inv (fun acc : PState × List Entry × Nat × Nat =>
-        BD reg acc.1.forest ∧ Tree.ForestAll (Tree.TreeInv q) acc.1.forest) _ (s.pendingOf id) (s, [], 0, 0)
-      ⟨h.main, h.ainv.trees⟩ ?_
-    · exact key.1
+    refine (Tree.foldl_inv (fun acc : PState × List Entry × Nat × Nat =>
+        BD reg acc.1.forest ∧ Goyang.Spec.Tree.ForestAll (Tree.TreeInv q) acc.1.forest) _ _ _
+      ⟨h.main, h.ainv.trees⟩ ?_).1
     · intro acc a ha hacc
       obtain ⟨p, hp', hap⟩ := Tree.pendingOf_mem s id a ha
       obtain ⟨p0, hp0, h1, h2⟩ := Tree.pendingOf_ne_nil s id (List.ne_nil_of_mem ha)
